@@ -536,6 +536,17 @@ mod value_laws {
         for s in ["", " ", "1", "true", "a", "A", "é", "ab"] {
             add(&format!("str {s:?}"), Value::scalar(s.to_owned()), false);
         }
+        // dates and date-times (same day / different days / sub-millisecond fraction)
+        {
+            use liquid_core::model::{Date, DateTime};
+            add("date 2020-01-02", Value::scalar(Date::from_ymd(2020, 1, 2)), false);
+            add("date 2020-01-03", Value::scalar(Date::from_ymd(2020, 1, 3)), false);
+            for t in ["2020-01-02 10:00:00 +0000", "2020-01-03 00:00:00 +0000", "2020-01-01 23:59:59 +0000", "2016-02-16 10:00:00.000456789 +0100", "2016-02-16 10:00:00.12 +0100"] {
+                if let Some(dt) = DateTime::from_str(t) {
+                    add(&format!("datetime {t}"), Value::scalar(dt), false);
+                }
+            }
+        }
         add("empty", Value::State(State::Empty), false);
         add("blank", Value::State(State::Blank), false);
         add("[]", Value::Array(vec![]), false);
@@ -768,8 +779,95 @@ mod conversions {
                 } } }
             back!(u8); back!(u16); back!(u32); back!(u64); back!(usize); back!(i8); back!(i16); back!(i32); back!(i64); back!(isize);
         }
+        n += derived::run()?;
         let _ = Object::new();
         Ok(n)
+    }
+
+    /// "a user struct exposed through the derive macros behaves exactly like the same struct converted through serde"
+    mod derived {
+        use liquid::model::{to_value, State, Value, ValueCow, ValueView, ValueViewCmp};
+        use liquid::{ObjectView, ValueView as DeriveValueView};
+
+        #[derive(ObjectView, DeriveValueView, serde::Serialize, Debug, Clone)]
+        struct Profile { nickname: String, tags: Vec<String>, verified: bool, referrer: Option<String> }
+        #[derive(ObjectView, DeriveValueView, serde::Serialize, Debug, Clone)]
+        struct Mixed { n: i64, name: String, ratio: f64 }
+        #[derive(ObjectView, DeriveValueView, serde::Serialize, Debug, Clone)]
+        struct Outer { p: Profile, m: Mixed }
+
+        fn same(name: &str, d: &dyn ValueView, s: &Value, keys: &[&str]) -> Result<usize, String> {
+            let mut n = 0;
+            let owned = d.to_value();
+            let cow = ValueCow::Borrowed(d);
+            let views: [(&str, &dyn ValueView); 3] = [("derived view", d), ("its to_value()", &owned), ("ValueCow::Borrowed of it", &cow)];
+            for (vn, w) in views {
+                n += 1;
+                for st in [State::Truthy, State::DefaultValue, State::Empty, State::Blank] {
+                    if w.query_state(st) != s.query_state(st) {
+                        return Err(format!("{name}: {st:?} of the {vn} is {} but the serde-converted value says {}", w.query_state(st), s.query_state(st)));
+                    }
+                }
+                if w.is_nil() != s.is_nil() || w.is_scalar() != s.is_scalar() || w.is_array() != s.is_array() || w.is_object() != s.is_object() || w.type_name() != s.type_name() {
+                    return Err(format!("{name}: the {vn} and the serde-converted value differ in kind"));
+                }
+                if !(ValueViewCmp::new(w) == ValueViewCmp::new(s)) || !(ValueViewCmp::new(s) == ValueViewCmp::new(w)) {
+                    return Err(format!("{name}: the {vn} is not equal to the serde-converted value"));
+                }
+                match (w.as_object(), s.as_object()) {
+                    (Some(a), Some(b)) => {
+                        if a.size() != b.size() {
+                            return Err(format!("{name}: sizes differ through the {vn}"));
+                        }
+                        for k in keys.iter().copied().chain(["missing"]) {
+                            if a.contains_key(k) != b.contains_key(k) {
+                                return Err(format!("{name}: contains_key({k}) differs through the {vn}"));
+                            }
+                            match (a.get(k), b.get(k)) {
+                                (None, None) => {}
+                                (Some(x), Some(y)) => {
+                                    // (the printed form of an object depends on the key order of the map type: compared for scalars only)
+                                    if !(ValueViewCmp::new(x) == ValueViewCmp::new(y)) || (x.is_scalar() && x.to_kstr() != y.to_kstr()) {
+                                        return Err(format!("{name}: member {k} differs through the {vn}"));
+                                    }
+                                    for st in [State::Truthy, State::DefaultValue, State::Empty, State::Blank] {
+                                        if x.query_state(st) != y.query_state(st) {
+                                            return Err(format!("{name}: {st:?} of member {k} differs through the {vn}"));
+                                        }
+                                    }
+                                }
+                                _ => return Err(format!("{name}: get({k}) differs through the {vn}")),
+                            }
+                        }
+                    }
+                    (None, None) => {}
+                    _ => return Err(format!("{name}: only one of the two is an object ({vn})")),
+                }
+            }
+            Ok(n)
+        }
+
+        pub fn run() -> Result<usize, String> {
+            let mut n = 0;
+            let profiles = [
+                Profile { nickname: String::new(), tags: vec![], verified: false, referrer: None },
+                Profile { nickname: "ferris".into(), tags: vec!["crab".into()], verified: true, referrer: Some("x".into()) },
+                Profile { nickname: " ".into(), tags: vec![String::new()], verified: false, referrer: Some(String::new()) },
+            ];
+            let mixed = [Mixed { n: 0, name: String::new(), ratio: 0.0 }, Mixed { n: i64::MIN, name: "é".into(), ratio: -0.5 }];
+            for (i, p) in profiles.iter().enumerate() {
+                let s = to_value(p).map_err(|e| format!("to_value(Profile): {e}"))?;
+                n += same(&format!("Profile #{i}"), p, &s, &["nickname", "tags", "verified", "referrer"])?;
+            }
+            for (i, m) in mixed.iter().enumerate() {
+                let s = to_value(m).map_err(|e| format!("to_value(Mixed): {e}"))?;
+                n += same(&format!("Mixed #{i}"), m, &s, &["n", "name", "ratio"])?;
+            }
+            let o = Outer { p: profiles[0].clone(), m: mixed[0].clone() };
+            let s = to_value(&o).map_err(|e| format!("to_value(Outer): {e}"))?;
+            n += same("Outer", &o, &s, &["p", "m"])?;
+            Ok(n)
+        }
     }
 }
 
